@@ -123,12 +123,12 @@ func RangeText(rk, lo, hi string) string {
 
 // A pool maps the specification's integers to Elk values of one comparable type, order-preserving.
 type pool struct {
-	name      string
-	typ       string
-	lit       func(int) string
-	decode    func(string) (int, bool)
-	iterable  bool // values are Incrementable: ranges over them can be iterated
-	arith     bool // the closures of the instance (x > 0, x + 1, a * 2 + x) make sense
+	name     string
+	typ      string
+	lit      func(int) string
+	decode   func(string) (int, bool)
+	iterable bool // values are Incrementable: ranges over them can be iterated
+	arith    bool // the closures of the instance (x > 0, x + 1, a * 2 + x) make sense
 }
 
 var bigBase = new(big.Int).Lsh(big.NewInt(1), 64) // 2^64: beyond every fixed-width representation
@@ -160,8 +160,8 @@ var pools = map[string]*pool{
 			return strconv.Itoa(i)
 		},
 		decode: func(s string) (int, bool) { n, err := strconv.Atoi(strings.TrimSpace(s)); return n, err == nil }},
-	"big":   bigPool("big", bigBase),
-	"i64":   bigPool("i64", i64Base),
+	"big": bigPool("big", bigBase),
+	"i64": bigPool("i64", i64Base),
 	"float": {name: "float", typ: "Float",
 		lit: func(i int) string {
 			if i < 0 {
